@@ -785,6 +785,79 @@ def _exec_lights(case):
     return ev
 
 
+
+def observe_axes(ax):
+    """Obstacle shapes VISIBLE on the axes: paths of the PatchCollections and the patches attached to the axes whose
+    bounding-box centre lies in an obstacle cell (row >= 1).  -> (sorted distinct cells [row, col], stray)."""
+    import math
+    import matplotlib.collections as mc
+    cells, stray = set(), 0
+    boxes = []
+    for col in ax.collections:
+        if isinstance(col, mc.PatchCollection) and col.get_visible():
+            boxes += [path.vertices for path in col.get_paths() if len(path.vertices)]
+    for pa in ax.patches:
+        if pa.get_visible():
+            boxes.append(pa.get_patch_transform().transform_path(pa.get_path()).vertices)
+    for v in boxes:
+        cx, cy = _bbox_centre(v)
+        row, col = int(math.floor(cy / CELL)), int(math.floor(cx / CELL))
+        if row >= 1:
+            if 0 <= col <= 1000:
+                cells.add((row, col))
+            else:
+                stray += 1
+    return [list(c) for c in sorted(cells)], stray
+
+
+def _exec_frames(case):
+    """The loop create_video runs, on ONE renderer: draw + render_static, then rounds of remove_dynamic; clear; draw with
+    the next window; render_dynamic; finally a full render().  After every round the shapes visible on the axes are logged."""
+    from commonroad.visualization.draw_params import MPDrawParams
+    from commonroad.visualization.mp_renderer import MPRenderer
+    descs, b0, e0, k = case["obs"], case["b"], case["e"], case["k"]
+    kind = descs[0]["kind"] if len(descs) == 1 else "mixed"
+    figs, ev = _Fig(), []
+    fig, ax = figs.get()
+    try:
+        sc = build_window_scenario(descs)
+        occ = model_occupancies(sc)
+        p = MPDrawParams()
+        statement_flags(p)
+        p.time_begin, p.time_end = b0, e0
+        step = "init"
+        try:
+            r = MPRenderer(draw_params=p, ax=ax)
+            r.draw_list([sc], draw_params=[p])
+            r.render_static()
+            for i in list(range(k + 1)) + ["final"]:
+                step = "final-render" if i == "final" else ("first-round" if i == 0 else "later-round")
+                if i == "final":
+                    b, e = b0 + 1, e0 + 1              # a window that differs from the last round's
+                    p.time_begin, p.time_end = b, e
+                    r.clear()                          # as in the loop: the drawing buffer is emptied before drawing
+                    r.draw_list([sc], draw_params=[p])
+                    r.render()
+                else:
+                    b, e = b0 + i, e0 + i
+                    p.time_begin, p.time_end = b, e
+                    r.remove_dynamic()
+                    r.clear()
+                    r.draw_list([sc], draw_params=[p])
+                    r.render_dynamic()
+                    ax.autoscale()
+                fig.canvas.draw()
+                cells, stray = observe_axes(ax)
+                ev.append({"op": "drawn", "obs": descs, "b": b, "e": e, "occ": occ, "drawn": cells, "stray": stray,
+                           "round": step, "sig": "frames/%s/%s" % (kind, step)})
+            ev.append({"op": "render", "res": "ok", "sig": "frames/%s" % kind})
+        except Exception as ex:
+            ev.append({"op": "render", "res": _exc(ex), "sig": "frames/%s/%s" % (kind, step)})
+    finally:
+        figs.drop()
+    return ev
+
+
 # =====================================================================================================================
 # (3) totality: archetypes x windows x flag rows
 # =====================================================================================================================
@@ -1177,6 +1250,7 @@ def model_check(ctx):
     ctx.mc_expect("MC_Render", "DEV_Render_1.cfg", "PropContract")
     ctx.mc("MC_Render", "MC_Render_win.cfg", coverage=True)
     ctx.mc("MC_Render", "MC_Render_lights.cfg", coverage=False)
+    ctx.mc("MC_Render", "MC_Render_frames.cfg", coverage=False)
 
 
 def pairwise_rows(rng, factors, candidates=12):
@@ -1253,6 +1327,19 @@ def cases(ctx):
                                  "descriptor_x_window": len(win),
                                  "with_a_shape_that_must_be_drawn": sum(1 for c in win if c["must"] > 0),
                                  "with_an_EITHER_band_shape (t = time_end)": sum(1 for c in win if c["band"] > 0)}
+    # (2c) frame sequences: the video loop on one renderer, for the obstacles that change over time (+ all kinds at once)
+    fr = sorted(ctx.gen("MC_Render", "GEN_Render_frames.cfg"), key=lambda c: json.dumps(c, sort_keys=True))
+    n_fr = 0
+    for c in fr:
+        d = {"id": 1, "kind": c["desc"]["kind"], "t0": c["desc"]["t0"], "n": c["desc"]["n"]}
+        if d["kind"] in ("static", "env"):
+            continue
+        cs.append({"part": "frames", "obs": [d], "b": c["b"], "e": c["e"], "k": 3})
+        n_fr += 1
+    for b, e in ((0, 0), (0, 2), (1, 1), (1, 3)):
+        cs.append({"part": "frames", "obs": [dict(d, id=i + 1) for i, d in enumerate(descs)], "b": b, "e": e, "k": 4})
+        n_fr += 1
+    ctx.extra["frame_sequences"] = {"sequences": n_fr, "rounds_each": "4-5 render_dynamic rounds + a final render()"}
     # (2b) lights: every light configuration x every time_begin (TLC); a second light with another configuration
     lit = sorted(ctx.gen("MC_Render", "GEN_Render_lights.cfg"), key=lambda c: json.dumps(c, sort_keys=True))
     for i, c in enumerate(lit):
@@ -1334,6 +1421,8 @@ def execute(case):
         return {"ev": _exec_window(case)}
     if part == "lights":
         return {"ev": _exec_lights(case)}
+    if part == "frames":
+        return {"ev": _exec_frames(case)}
     if part == "total":
         return {"ev": _exec_total(case)}
     raise tlc.MachineryError("unknown case part %r" % (part,))
@@ -1342,6 +1431,8 @@ def execute(case):
 def nontrivial(case):
     if case["part"] == "tree":
         return ("tree", tuple(case["node"]))
+    if case["part"] == "frames":
+        return ("frames", json.dumps(case["obs"], sort_keys=True), case["b"], case["e"])
     if case["part"] == "lights":
         return ("lights", json.dumps(case["lights"], sort_keys=True), case["t"])
     if case["part"] == "replace":
